@@ -65,6 +65,14 @@ fn pcrel_form(k: u8) -> (Op, Vec<u8>) {
 }
 
 fn source_for(spec: &ProgSpec, inject: Inject) -> Option<(String, bool, bool, Option<refasm::RefImage>)> {
+    // an injected statement goes behind the program: keep the image-fit padding (which fills the
+    // address space) out of those cases, or label distances beyond 2^16 come into play (C04's
+    // known finding, not this property's subject)
+    let mut spec = spec.clone();
+    if inject != Inject::None {
+        spec.fit = 0;
+    }
+    let spec = &spec;
     let built = proggen::build(spec);
     let mut p = built.program.clone();
     let mut extra = String::new();
